@@ -424,8 +424,8 @@ LEVEL_NOTE = ("MP4 half - modelled and proved: the sizes the code REQUESTS for b
               "output buffer, the order of operations, which bytes are read. SAMPLED, not proved: real peak heap (counting global allocator in the "
               "harness; bound peak <= %d*max(limit,1024)+%d bytes stated in the evidence; the Vec of parsed children, error reports and the "
               "allocator's own overhead are not in the model). The 32-byte look-ahead of the BufReader is in the Level-B model, which is compared "
-              "with the implementation trace exactly but has no refinement theorem of its own (C15 proves that for the adapter models of "
-              "Base/Adapters.v). C10_media_noninterference is stated through the trace (bytes passed over by a skip, all inputs) and, for inputs "
+              "with the implementation trace exactly and is proved to refine the ideal cursor for every programme (C10_level_b_refines_cursor, "
+              "C10_mp4_level_b_is_model: in-memory inputs, seek bound covering the input). C10_media_noninterference is stated through the trace (bytes passed over by a skip, all inputs) and, for inputs "
               "that are a sequence of complete boxes and enough fuel, through Spec.tiling (C10_media_noninterference_tiled, using the loop "
               "lemma of Mp4/LoopProofs.v). Finding D6 (metadata not bounded by the limit) is fixed (3c176e3); its classifier stays in known_class and its former "
               "witness is the first corpus case. Observation (no violation): a moov made of 8-byte children costs about 11-12 bytes of heap per "
@@ -648,3 +648,17 @@ def oracle(run, pairs):
 def search(run, disagreements):
     yield from _mp4["search"](run, disagreements)
     yield from wgen(run)
+
+_BREQ = ["From Coq Require Import List NArith Bool.",
+         "From MS Require Import Base.Bytes Base.Outcome Base.Prog Base.BufLevel Mp4.San Mp4.SanB Props.C10b.", "Open Scope N_scope."]
+THEOREMS = list(THEOREMS) + [
+    ("C10_level_b_refines_cursor", """forall (inp : input) (lenient : bool) (ms cap : N), 1 <= cap -> ilen inp <= I64MAX' -> ilen inp <= ms ->
+  forall (A : Type) (p : prog A),
+    fst (run (level_b inp lenient ms cap) p (lb_init None)) = fst (run (cursor inp lenient ms) p 0)"""),
+    ("C10_mp4_level_b_is_model", """forall (cfg : config) (lenient : bool) (ms : N) (inp : input) (fuel : nat),
+  ilen inp <= I64MAX' -> ilen inp <= ms ->
+  fst (fst (mp4_sanitize_b cfg lenient ms inp fuel None)) = mp4_sanitize cfg lenient ms inp fuel"""),
+]
+REQUIRES_FOR = dict(REQUIRES_FOR, C10_level_b_refines_cursor=_BREQ, C10_mp4_level_b_is_model=_BREQ)
+COQ_TARGETS = list(COQ_TARGETS) + ["theories/Props/C10b.vo"]
+COQCHK = list(COQCHK) + ["MS.Props.C10b"]
